@@ -112,3 +112,66 @@ def pmap(modname, funcname, cases, procs=None, chunksize=4, timeout_s=None):
     with ctx.Pool(processes=min(procs, len(cases))) as pool:
         for case, (st, res) in zip(cases, pool.imap(_call, [(modname, funcname, c) for c in cases], chunksize=chunksize)):
             yield case, st, res
+
+
+# ---- templated sources -----------------------------------------------------------------------------------------------------------
+SQL_FRAGS = ["a", "b + 1", "t.c", "'x'", "count(*)", "a,\n    b", "x  as  y", "1", "foo(a , b)", "CASE WHEN a THEN 1 END"]
+TABLES = ["t", "s.tbl", "my_table AS m", "(select 1) q"]
+
+
+def gen_jinja(rng, depth=0):
+    """A Jinja template around SQL fragments: if/elif/else, for, set, macro, comments, whitespace control; nesting <= 3."""
+    ws = lambda: rng.choice(["", "-"])  # noqa: E731
+
+    def block(d):
+        k = rng.choice(["lit", "lit", "expr", "if", "for", "set", "comment", "macro"] if d < 3 else ["lit", "expr", "comment"])
+        if k == "lit":
+            return rng.choice(SQL_FRAGS)
+        if k == "expr":
+            return "{{%s %s %s}}" % (ws(), rng.choice(["col", "n", "tbl", "items[0]", "col | upper", "undefined_thing"]), ws())
+        if k == "comment":
+            return "{#%s a comment %s#}" % (ws(), ws())
+        if k == "set":
+            return "{%%%s set v = %s %s%%}%s" % (ws(), rng.choice(["1", "'z'", "items"]), ws(), "{{ v }}" if rng.random() < 0.5 else "")
+        if k == "if":
+            s = "{%%%s if %s %s%%}%s" % (ws(), rng.choice(["flag", "not flag", "n > 1", "undefined_flag"]), ws(), block(d + 1))
+            if rng.random() < 0.4:
+                s += "{%% elif %s %%}%s" % (rng.choice(["other", "n == 2"]), block(d + 1))
+            if rng.random() < 0.6:
+                s += "{%%%s else %s%%}%s" % (ws(), ws(), block(d + 1))
+            return s + "{%%%s endif %s%%}" % (ws(), ws())
+        if k == "for":
+            return "{%%%s for i in %s %s%%}%s{{ i }}%s{%%%s endfor %s%%}" % (
+                ws(), rng.choice(["items", "range(2)", "[]", "['p', 'q', 'r']"]), ws(), block(d + 1), rng.choice([", ", "\n", " + "]), ws(), ws())
+        return "{% macro m(x) %}{{ x }}_m{% endmacro %}{{ m('" + rng.choice(["a", "b"]) + "') }}"
+    parts = ["SELECT\n    ", block(depth), rng.choice([",\n    ", ", "]), block(depth), "\nFROM ", rng.choice(TABLES)]
+    if rng.random() < 0.5:
+        parts += ["\nWHERE ", block(depth), " = 1"]
+    return "".join(parts) + rng.choice(["\n", "", ";\n"])
+
+
+JINJA_CONTEXTS = [
+    {"col": "my_col", "n": 2, "tbl": "tt", "items": ["u", "v"], "flag": True, "other": False},
+    {"col": "c2", "n": 1, "tbl": "x.y", "items": [], "flag": False, "other": True},
+]
+
+
+def gen_pyformat(rng):
+    fields = ["{a}", "{b}", "{a!r}", "{b:>5}", "{{", "}}", "{dotted.name}", "{a}{b}"]
+    parts = ["SELECT "]
+    for _ in range(rng.randrange(1, 5)):
+        parts.append(rng.choice(fields + SQL_FRAGS))
+        parts.append(rng.choice([", ", " + ", " "]))
+    parts.append("1 FROM " + rng.choice(["{tbl}", "t"]) + "\n")
+    return "".join(parts)
+
+
+PY_CONTEXT = {"a": "col_a", "b": 12, "tbl": "my_tbl", "dotted.name": "dn"}
+
+PLACEHOLDER_STYLES = {"colon": ":x", "colon_nospaces": ":x", "colon_optional_quotes": ":x", "numeric_colon": ":1", "pyformat": "%(x)s", "dollar": "$x", "flyway_var": "${x}",
+                      "question_mark": "?", "numeric_dollar": "$1", "percent": "%s", "ampersand": "&x", "dollar_surround": "$x$"}
+
+
+def gen_placeholder(rng, style):
+    p = PLACEHOLDER_STYLES[style]
+    return "SELECT a, %s FROM t WHERE b = %s AND c IN (%s, %s)%s" % (p, p, p, rng.choice(["1", p]), rng.choice(["\n", ""]))
